@@ -116,6 +116,10 @@ def run_shard(prop: str, tier: str, seed: int, shard: int, nshards: int, out: st
             if shard == 0 and hasattr(mod, 'PINNED'):
                 for i in range(len(mod.PINNED)):
                     _run_one(mod, col, 'pinned', i)
+            if shard == nshards - 1 and tier == 'thorough' and hasattr(mod, 'THOROUGH_EXTRA'):
+                for name, fn in mod.THOROUGH_EXTRA:
+                    col.case_kind, col.case_index = 'extra', 0
+                    fn(col)
             n = mod.CASES[tier] if isinstance(mod.CASES, dict) else mod.CASES(tier)
             for idx in range(shard, n, nshards):
                 _run_one(mod, col, 'case', idx)
